@@ -154,7 +154,8 @@ func (fx *FnExec) staticCall(st *State, fn *ssa.Function, args, bindings []*Term
 		fx.fail("call to %s: no body and no contract", full)
 	}
 	if fx.inRepo(fn) || fn.Synthetic != "" {
-		if !hasLoop(fn) && fx.depth < 6 && len(fn.Blocks) <= 40 {
+		rc := fx.root().con
+		if !hasLoop(fn) && fx.depth < 6 && len(fn.Blocks) <= 40 && !(rc != nil && rc.Opaque[fn.Name()]) {
 			return fx.inline(st, fn, nil, args, bindings, p)
 		}
 		fx.opaqueTargets = []*ssa.Function{fn}
@@ -361,8 +362,10 @@ func (fx *FnExec) havocAssigns(st *State, envPre *SpecEnv, assigns []*Clause, fn
 			v := fx.c.Fresh("hvp", fx.e.sortOf(loc.ptype))
 			fx.assumeType(st, v, loc.ptype)
 			fx.heapSet(st, hn, Store(fx.heapGet(st, hn, hs), loc.ref, v))
-		case loc.refKind == "elem":
-			fx.fail("assigns elems(): element type needed; use heap component form")
+		case loc.refKind == "elem" && loc.ptype != nil:
+			// the whole backing array of the slice may change
+			hn, hs := fx.elemHeapName(loc.ptype)
+			fx.heapSet(st, hn, Store(fx.heapGet(st, hn, hs), loc.ref, fx.c.Fresh("hve", hs.elemSort())))
 		default:
 			fx.fail("unsupported assigns location in contract of %s", fn.Name())
 		}
@@ -398,6 +401,13 @@ func (fx *FnExec) calleeFrame(st *State, loc *assignLoc, p token.Pos) {
 	case loc.refKind == "pcell":
 		allowed = append(allowed, fx.isFresh(loc.ref))
 		what = "cell"
+	case loc.refKind == "elem":
+		// a fresh backing array, or none at all (nil slice)
+		allowed = append(allowed, fx.isFresh(loc.ref), Eq(loc.ref, IntLit(0)))
+		if loc.slc != nil {
+			allowed = append(allowed, Eq(SlcCap(loc.slc), IntLit(0)))
+		}
+		what = "elems"
 	default:
 		return
 	}
@@ -435,6 +445,10 @@ func (fx *FnExec) calleeFrame(st *State, loc *assignLoc, p token.Pos) {
 			}
 		case loc.refKind == "pcell":
 			if al.refKind == "pcell" && al.ref != nil {
+				allowed = append(allowed, Eq(al.ref, loc.ref))
+			}
+		case loc.refKind == "elem":
+			if al.refKind == "elem" && al.ref != nil {
 				allowed = append(allowed, Eq(al.ref, loc.ref))
 			}
 		}
@@ -1040,6 +1054,15 @@ func (fx *FnExec) callMods(ci ssa.CallInstruction, ms *modSet) {
 			}
 			return
 		}
+		if observerCallee("dynamic " + ifaceKey(cc)) {
+			// same treatment as in the loop body (opaqueCall): caches, and IDs if a target can write them
+			if ts := fx.e.dynamicTargets(cc); len(ts) > 0 && !fx.e.reachesIDWrites(ts) {
+				ms.caches = true
+			} else {
+				ms.observer = true
+			}
+			return
+		}
 		ms.opaque = true
 		return
 	}
@@ -1084,6 +1107,9 @@ func (fx *FnExec) wouldBeOpaque(fn *ssa.Function) bool {
 		return true
 	}
 	if fx.inRepo(fn) || fn.Synthetic != "" {
+		if rc := fx.root().con; rc != nil && rc.Opaque[fn.Name()] {
+			return true
+		}
 		return hasLoop(fn) || len(fn.Blocks) > 40
 	}
 	for i := 0; i < fn.Signature.Params().Len(); i++ {
@@ -1097,6 +1123,14 @@ func (fx *FnExec) wouldBeOpaque(fn *ssa.Function) bool {
 
 func (fx *FnExec) funcMods(fn *ssa.Function, ms *modSet, depth int) {
 	if fx.wouldBeOpaque(fn) {
+		if observerCallee(fn.String()) && (fx.inRepo(fn) || fn.Synthetic != "") {
+			if fx.e.reachesIDWrites([]*ssa.Function{fn}) {
+				ms.observer = true
+			} else {
+				ms.caches = true
+			}
+			return
+		}
 		ms.opaque = true
 		return
 	}
@@ -1142,12 +1176,33 @@ func (fx *FnExec) funcMods(fn *ssa.Function, ms *modSet, depth int) {
 			loc := env.assignLoc(a.Expr)
 			switch {
 			case loc.si != nil:
-				ms.heaps[fieldHeapName(loc.si, loc.fidx)] = ArrSort(SInt, fx.fieldSort(loc.si, loc.fidx))
+				// the object is named in terms of the callee's parameters: any object may be meant
+				h := fieldHeapName(loc.si, loc.fidx)
+				ms.heaps[h] = ArrSort(SInt, fx.fieldSort(loc.si, loc.fidx))
+				if ms.full != nil {
+					ms.full[h] = true
+				}
+			case loc.whole == "caches":
+				ms.caches = true
 			case loc.whole != "":
 				ms.heaps[loc.whole] = loc.gsort
 				if ms.full != nil {
 					ms.full[loc.whole] = true
 				}
+			case loc.refKind == "elem" && loc.ptype != nil:
+				hn, hs := fx.elemHeapName(loc.ptype)
+				ms.heaps[hn] = hs
+				if ms.full != nil {
+					ms.full[hn] = true
+				}
+			case loc.refKind == "pcell" && loc.ptype != nil:
+				hn, hs := fx.pheapName(loc.ptype)
+				ms.heaps[hn] = hs
+				if ms.full != nil {
+					ms.full[hn] = true
+				}
+			case loc.refKind == "pcell":
+				ms.opaque = true
 			}
 		}
 		return
